@@ -271,7 +271,7 @@ func (H2) Response(id uint32) []byte {
 	return h2frame(1, 0x4|0x1, id, []byte{0x88}) // HEADERS, END_HEADERS|END_STREAM, ":status: 200" (static table)
 }
 func (h H2) GoAwayResponse(id uint32) []byte { return append(h.GoAway(id), h.Response(id)...) }
-func (H2) Garbage() []byte                  { return h2frame(1, 0x4, 0, []byte{0xff}) } // HEADERS on stream 0: connection error
+func (H2) Garbage() []byte                   { return h2frame(1, 0x4, 0, []byte{0xff}) } // HEADERS on stream 0: connection error
 func (H2) GoAway(last uint32) []byte {
 	p := make([]byte, 8)
 	binary.BigEndian.PutUint32(p[0:4], last)
@@ -283,3 +283,35 @@ func (H2) RstStream(id uint32) []byte {
 	binary.BigEndian.PutUint32(p[0:4], 8) // CANCEL
 	return h2frame(3, 0, id, p)
 }
+
+// BDName is the harness-registered xprotocol served by the binding pool (PoolMode neither ping-pong
+// nor multiplex): bolt wire format, heartbeat enabled.
+const BDName = "c09bd"
+
+type bdProtocol struct{ api.XProtocol }
+
+func (p bdProtocol) Name() api.ProtocolName { return BDName }
+func (p bdProtocol) PoolMode() api.PoolMode { return api.TCP }
+func (p bdProtocol) EnableWorkerPool() bool { return false }
+
+type BDCodec struct{ inner bolt.XCodec }
+
+func (c *BDCodec) ProtocolName() api.ProtocolName { return BDName }
+func (c *BDCodec) NewXProtocol(ctx context.Context) api.XProtocol {
+	return bdProtocol{c.inner.NewXProtocol(ctx)}
+}
+func (c *BDCodec) ProtocolMatch() api.ProtocolMatch { return nil }
+func (c *BDCodec) HTTPMapping() api.HTTPMapping     { return nil }
+
+func RegisterBD() (*BDCodec, error) {
+	c := &BDCodec{}
+	if err := xprotocol.RegisterXProtocolCodec(c); err != nil {
+		return nil, err
+	}
+	return c, nil
+}
+
+// BD is the upstream side for the binding pool (same wire as MX).
+type BD struct{ MX }
+
+func (BD) Name() string { return "bind" }
